@@ -105,11 +105,12 @@ def jaqal_import(
             del sys.modules[k]
         module = None
 
+    removed = {}
     if module and reload_module:
         if full_reload:
-            del sys.modules[mod_name]
+            removed[mod_name] = sys.modules.pop(mod_name)
             for k in [k for k in sys.modules.keys() if k.startswith(f"{mod_name}.")]:
-                del sys.modules[k]
+                removed[k] = sys.modules.pop(k)
             module = None
         elif relative:
             module = None
@@ -118,7 +119,18 @@ def jaqal_import(
 
     if module is None:
         if relative:
-            module = _jaqal_import_module_relative(mod_name, import_path)
+            try:
+                module = _jaqal_import_module_relative(mod_name, import_path)
+            except ImportError:
+                # Nothing was imported: a module of that name that came from
+                # the Python path (not from an earlier relative Jaqal import)
+                # stays what it was.
+                for k, v in removed.items():
+                    if not getattr(
+                        removed[mod_name], "__jaqal_relative_import__", False
+                    ):
+                        sys.modules.setdefault(k, v)
+                raise
         else:
             module = importlib.import_module(mod_name)
 
